@@ -753,7 +753,6 @@ func (fr *freshness) loadFresh(ld *ssa.UnOp, seen map[ssa.Value]bool) string {
 	return "loaded from memory whose origin is not tracked"
 }
 
-
 func (fr *freshness) callFresh(c *ssa.Call, idx int, seen map[ssa.Value]bool) string {
 	p := fr.p
 	if b, ok := c.Call.Value.(*ssa.Builtin); ok {
